@@ -164,6 +164,15 @@ finding("C14-float-loses-fraction", "C14", [],
  "Literal::Float is printed with `{}`: `derive {c = 3.0}` is formatted as `derive {c = 3}`, which parses to Integer(3): `prqlc fmt` changes the literal's kind (and e.g. `1 / 2.0` style arithmetic on integer-dividing targets). The behaviour is recorded in the fmt snapshots of the integration queries (arithmetic.prql: `x_float = 13.0` -> `x_float = 13`), so it is recorded here rather than repaired.",
  None)
 
+finding("C13-parser-resolver-spans-are-byte-offsets", "C13", ["C12"],
+ "a syntactic / resolution / type / SQL-generation error (not a lexer error) whose position is preceded by multi-byte text; the ASCII twin of the source (same length in characters) passes every check",
+ "Token spans are byte offsets (chumsky over &str); only lexer errors are converted to character offsets (convert_lexer_error). ErrorMessages::composed feeds parser and resolver spans to ariadne, which counts characters: after `# é` the reported column is one too far (`Unknown name zzz_col` at 3:144 instead of 3:143), `span` (documented as a character offset) is the byte offset, and when the byte offset exceeds the character count `assert!(e.location.is_some())` panics (error_message.rs:153). Not repaired: it needs a decision on the unit of the public `span` field across lexer, parser and resolver errors.",
+ None)
+finding("C13-span-in-foreign-source", "C13", [],
+ "an error whose span carries a source id that is not a file of the compiled source tree (internal compiler error #4317 raised for `take 3 4` after a non-boolean filter etc.: span 0:2411-2424 points into the embedded std library)",
+ "`... | filter 1 + 2 | take 3 4` returns `internal compiler error; tracked at https://github.com/PRQL/prql/issues/4317` with span source_id 0 (std.prql), start 2411: the span does not lie in the named source, and location/display are absent.",
+ None)
+
 k = json.load(open(os.path.join(V, "known_findings.json")))
 keep = [f for f in k["findings"] if f["id"] not in {x["id"] for x in FINDINGS}]
 k["findings"] = keep + FINDINGS
